@@ -160,6 +160,7 @@ def build(ck):
     driver.rules_scenarios(ck, T, 'C01')
     from props import lemmas
     lemmas.w_lemmas(ck)          # the W-fold lemmas instantiated throughout are proved here by induction
+    lemmas.selection_lemmas(ck)  # ... and the selection lemmas of the filtering comprehension (IdentityRule)
     axioms = driver.size_axioms() + A.reduce_axioms() + T.class_axioms()
 
     # ------------------------------------------------------------------ CompositionOperator.reduce
